@@ -882,7 +882,7 @@ def accumulate(n, axis, newaxis, status_cb, target):
         else:
             data.append(d)
         if len(data) == n:
-            data = concatenate(data, axis=axis)
+            data = np.concatenate(data, axis=axis)
             target(data)
             data = []
 
